@@ -57,7 +57,7 @@ def dunder_facts(model, cls, dunder):
     order = "normal" if names == (selfn, othern) else "reflected" if names == (othern, selfn) else "?"
     opname = op.value if isinstance(op, ast.Constant) else None
     from .facts import callable_op
-    lam = callable_op(fn.node, call.args[3]) if len(call.args) > 3 else None
+    lam = callable_op(fn.node, call.args[3], model, fn) if len(call.args) > 3 else None
     return {"fn": fn, "op": opname, "order": order, "lam": lam, "has_lambda": len(call.args) > 3, "node": rets[0]}
 
 
@@ -115,6 +115,6 @@ def db_operation_facts(model, opname):
     for a in ordered[4:]:
         if a is None:
             continue
-        lams.append(callable_op(fn.node, a))
+        lams.append(callable_op(fn.node, a, model, fn))
     args = [a.id if isinstance(a, ast.Name) else None for a in ordered[:4]]
     return fn, rets[0], callee, lams, args
